@@ -847,7 +847,8 @@ def _initialize_aggregation(
 
     if finalize_kwargs is not None:
         assert isinstance(finalize_kwargs, dict)
-        agg.finalize_kwargs = finalize_kwargs
+        # a private copy: the blueprint is bound into the tasks of a lazy result, the dict belongs to the caller
+        agg.finalize_kwargs = copy.deepcopy(finalize_kwargs)
 
     # This is needed for the dask pathway.
     # Because we use intermediate fill_value since a group could be
